@@ -122,6 +122,51 @@ def explore(res, rng, n):
     res.samples += [{'history': h, 'scale_2^-s': s, 'resolution_on_grid': r} for h, s, r in cases[2:5]]
 
 
+def caller_array_stream(res, rng, k):
+    """the history handed over as a float64 array stays the caller's: it is unchanged after the call, and a later call on the
+    same array at another resolution gives what a fresh copy gives (digitising in place would count an already rounded history)"""
+    core.import_impl()
+    import numpy as np
+    from ffpack import lsm, utils
+    for _ in range(k):
+        h, s = core.gen_history(rng, maxlen=14, closed=True)
+        if max(abs(v) for v in h) >= 4096 or len(set(h)) < 2:
+            continue
+        vals = [v / 10.0 for v in h]
+        arr = np.array(vals, dtype=float)
+        r1, r2 = rng.choice([(0.5, 0.2), (1.0, 0.3), (0.3, 0.1), (2.0, 0.5)])
+        for name in cyc.NAMES:
+            if not (cyc.valid_for(name, h)):
+                continue
+            f = getattr(lsm, cyc.MATRIX_API[name])
+            res.evaluations += 1
+            res.stat('caller_array_reused')
+            case = {'history': vals, 'resolutions': [r1, r2]}
+            try:
+                f(arr, r1)
+                same = arr.tolist() == vals
+                second = f(arr, r2)
+                fresh = f(list(vals), r2)
+            except ValueError:
+                arr = np.array(vals, dtype=float)
+                continue
+            except Exception as e:  # noqa
+                res.failures.append({'signature': f'C07:{name}:caller-array:raises', 'clause': 'valid history raised when given as a float64 array: ' + repr(e)[:80],
+                                     'api': cyc.MATRIX_API[name], 'input': case})
+                arr = np.array(vals, dtype=float)
+                continue
+            if not same or repr(second) != repr(fresh):
+                res.failures.append({'signature': f'C07:{name}:caller-array-modified:{vals}:{r1}:{r2}',
+                                     'clause': "the caller's history array was modified / a second call on it at another resolution differs from a call on a fresh copy",
+                                     'api': cyc.MATRIX_API[name], 'input': case, 'impl_output': {'array_after': arr.tolist(), 'second': repr(second)[:200], 'fresh': repr(fresh)[:200]}})
+                arr = np.array(vals, dtype=float)
+        d0 = np.array(vals, dtype=float)
+        utils.sequenceDigitization(d0, r1)
+        if d0.tolist() != vals:
+            res.failures.append({'signature': f'C07:digitise:caller-array-modified:{vals}:{r1}', 'clause': "sequenceDigitization modified the caller's array",
+                                 'api': 'sequenceDigitization', 'input': {'history': vals, 'resolution': r1}})
+
+
 def finer_than_atol(res):
     """resolution finer than 10^-atol: the index keys are strings with atol decimals and collide (recorded design limitation)"""
     core.import_impl()
@@ -150,6 +195,7 @@ def run(tier, seed):
     n = 700 if tier == 'quick' else 15000
     explore(res, random.Random(seed), n)
     finer_than_atol(res)
+    caller_array_stream(res, random.Random(seed + 3), 12 if tier == 'quick' else 200)
     if (res.proof_problems or res.disagreements) and not res.failures:
         explore(res, random.Random(seed + 7919), 4 * n)
     res.disagreements_checked = res.traces
